@@ -1058,12 +1058,14 @@ def _init_http_stream_session(
             pending_batches.append(AnnotatedBatch(batch=resolved_batch, custom_metadata=resolved_cm))
     except RpcError as exc:
         _drain_stream(reader)
-        if not pending_batches:
+        if not pending_batches and header is None:
             raise
-        # The producer emitted data in this (init) turn before failing — only
-        # possible when max_response_bytes lets a turn carry several batches.
-        # Hand the batches over first and raise the error after them, exactly
-        # as a continuation turn (and every other transport) does.
+        # The stream already delivered something before failing: its header
+        # (read from the preceding IPC stream), and/or data batches emitted in
+        # this (init) turn — the latter only when max_response_bytes lets a
+        # turn carry several batches.  Hand those over first and raise the
+        # error after them, exactly as a continuation turn (and every other
+        # transport) does.
         pending_error = exc
         finished = True
     else:
